@@ -81,6 +81,9 @@ type Backend struct {
 	// "reject…", "early…", "panic…", anything else: accept); used by the
 	// history explorers, whose backend must be stateless.
 	ByContent bool
+	// StatusByRcpt (with ByContent, LMTP per-recipient sessions): after the message has been dealt with, every recipient
+	// of the envelope gets its own status, in order: "okd5..." a 550, "okd4..." a 451, anyone else the verdict.
+	StatusByRcpt bool
 	// Override, if set, decides the result of NewSession/Mail/Rcpt/Data
 	// (ok=false: fall back to the address convention).
 	Override func(kind, arg string) (err error, ok bool)
@@ -93,6 +96,10 @@ type Backend struct {
 	Overlaps []string
 	// Probe, if set, is called inside NewSession with the Conn.
 	Probe func(c *smtp.Conn)
+
+	heldSASL     [][]byte // the slices RecordNext was handed, as handed
+	heldCopy     []string // what they held at that time
+	heldReported bool
 }
 
 func (b *Backend) add(e *Event) *Event {
@@ -357,7 +364,21 @@ func (s *sess) consume0(kind string, r io.Reader, status smtp.StatusCollector) (
 	}
 	setStatus(false)
 	if b.ByContent {
-		return s.byContent(e, r, idx)
+		err := s.byContent(e, r, idx)
+		if b.StatusByRcpt && status != nil {
+			for _, rc := range e.Rcpts {
+				st := err
+				switch {
+				case strings.HasPrefix(rc, "okd5"):
+					st = &smtp.SMTPError{Code: 550, EnhancedCode: smtp.EnhancedCode{5, 2, 1}, Message: "mailbox of " + rc + " is disabled"}
+				case strings.HasPrefix(rc, "okd4"):
+					st = &smtp.SMTPError{Code: 451, EnhancedCode: smtp.EnhancedCode{4, 2, 2}, Message: "mailbox of " + rc + " is full"}
+				}
+				b.add(&Event{Sess: s.id, Kind: "SetStatus", Arg: rc, Ret: errStr(st), Ended: true})
+				status.SetStatus(rc, st)
+			}
+		}
+		return err
 	}
 	bufSize := plan.Buf
 	if bufSize <= 0 {
@@ -548,5 +569,19 @@ func (b *Backend) RecordNext(sess int, resp []byte) {
 	if resp != nil {
 		arg = fmt.Sprintf("%q", resp)
 	}
+	// A mechanism may keep what it is handed (LOGIN keeps the user name until the password arrives): the slices of
+	// earlier calls must still hold what they held when they were handed over.
+	b.mu.Lock()
+	for i, held := range b.heldSASL {
+		if string(held) != b.heldCopy[i] && !b.heldReported {
+			b.heldReported = true
+			b.Anomalies = append(b.Anomalies, fmt.Sprintf("the response slice handed to the SASL mechanism in an earlier Next call (%q) was overwritten afterwards: it now reads %q", b.heldCopy[i], held))
+		}
+	}
+	if len(resp) > 0 {
+		b.heldSASL = append(b.heldSASL, resp)
+		b.heldCopy = append(b.heldCopy, string(resp))
+	}
+	b.mu.Unlock()
 	b.add(&Event{Sess: sess, Kind: "Next", Arg: arg, Ended: true})
 }
